@@ -413,6 +413,17 @@ func (e *C10) one(ctx *core.Ctx) {
 			if cmp(params, stored, strategy.NewNodeItem(node, s2)) {
 				fail("C10.detect-setting-change", cn)
 			}
+			// the setting now also demands a quantity of zero for a resource the pod does not mention at all
+			// ("reserve nothing" is a value, its absence is none)
+			s3 := setting.DeepCopy()
+			if s3.Spec.Containers[i].Resources.Requests == nil {
+				s3.Spec.Containers[i].Resources.Requests = corev1.ResourceList{}
+			}
+			s3.Spec.Containers[i].Resources.Requests["ephemeral-storage"] = resource.MustParse("0")
+			ctx.Count("C10.perturb-setting")
+			if cmp(params, stored, strategy.NewNodeItem(node, s3)) {
+				fail("C10.detect-setting-change", cn+" (zero quantity for a resource the pod lacks)")
+			}
 			break
 		}
 	}
